@@ -14,7 +14,8 @@ RULE = ("scripts = (send budget, global default stack, two modules each with Mod
         "handler script with 0..3 start-up stages and optionally a sleeping task or a shutdown/restart trigger, message injections onto a "
         "gate or directly) drawn from a structured generator: stacks of 0..6 elements mixing pass/modify/consume, sends from every hook "
         "(schedule_in to self, send_in to the peer, delays chosen to create equal arrival times), injections with tied times, timer "
-        "deadlines tied with messages; non-trivial = distinct script whose run contains a message bracket and hits >= 3 targeted mechanisms")
+        "deadlines tied with messages; 12% of the scripts are bursts: one event (start-up stage, first message or wake-up) sends 24..190 "
+        "messages from one to three hooks with delays from {0,1,2,3}*unit in non-monotone order with many ties; non-trivial = distinct script whose run contains a message bracket and hits >= 3 targeted mechanisms")
 TRUSTED = ["user code (elements, handler, task) is a script language: pass / modify(+k) / consume, sends from every hook under a shared budget, "
            "one sleeping task per module or one shutdown trigger per module (never both: timer slots across a runtime shutdown are C05/C09)",
            "the event set is the two-list specification that C01 proves the calendar queue refines (current-instant FIFO first, then time order, FIFO among ties)",
@@ -110,9 +111,66 @@ def gen_script(rng):
     return encode({"budget": budget, "global": glob, "mods": mods, "inj": inj})
 
 
+def burst_emits(rng, ids, n, unit):
+    """n sends whose delays come from {0,1,2,3}*unit in shuffled (non-monotone) order with many ties,
+    mostly schedule_in to self, some send_in to the peer"""
+    ds = [(j % 4) * unit for j in range(n)]
+    rng.shuffle(ds)
+    if rng.random() < 0.3:                     # the demo's shape: descending / alternating runs
+        ds = [(3 - j % 3) * unit if j < n // 2 else (1 + j % 2) * unit for j in range(n)]
+    pp = rng.choice([0.0, 0.2, 0.5])
+    return [(1 if rng.random() < pp else 0, d, ids()) for d in ds]
+
+
+def gen_burst(rng):
+    """One event emits far more than 20 messages (sort/merge thresholds of buffer handling lie there):
+    one or two hooks of module 0 (element event_start / incoming / event_end, handler callbacks, task)
+    carry 24..96 sends each; the budget covers the burst once, so every id is sent exactly once."""
+    ids = IdGen(1000)
+    unit = rng.choice([1, 1, 1000, 2500000])
+    nel = rng.choice([0, 1, 1, 2, 3])
+    els = [{"act": rng.choice([PASS, PASS, MODIFY]), "k": 100000, "start": [], "in": [], "end": []} for _ in range(nel)]
+    h = {"stages": 1, "xkind": 0, "xa": 0, "xb": 0, "xc": 0, "start": [], "msg": [], "end": [], "task": []}
+    # which event bursts: 0 = start-up stage 0, 1 = first delivered message, 2 = timer wake-up
+    where = rng.choice([0, 0, 1, 2])
+    slots = {0: [("h", "start")] + [("e%d" % j, f) for j in range(nel) for f in ("start", "end")],
+             1: [("h", "msg")] + [("e%d" % j, f) for j in range(nel) for f in ("in",)],
+             2: [("h", "task")]}[where]
+    total = 0
+    for who, f in rng.sample(slots, min(len(slots), rng.choice([1, 1, 2, 3]))):
+        n = rng.randint(24, 96) if total == 0 else rng.randint(4, 40)
+        if total + n > 190:
+            break
+        em = burst_emits(rng, ids, n, unit)
+        total += n
+        if who == "h":
+            h[f] = em
+        else:
+            els[int(who[1:])][f] = em
+    inj = []
+    if where == 1:
+        inj = [(rng.randint(0, 1), 0, rng.choice([0, 1, 5, unit]), 1)]
+    if where == 2:
+        h["xkind"] = 1; h["xa"] = rng.choice([0, 4, unit])
+    if rng.random() < 0.3:
+        inj.append((rng.randint(0, 1), rng.randint(0, 1), rng.choice([0, 1, 2 * unit, 3 * unit]), 2))
+    split_at = rng.randint(0, nel)
+    mode = rng.choice([1, 3]) if 0 < split_at < nel else rng.choice([0, 1]) if split_at == nel else rng.choice([2, 3])
+    if mode == 3:
+        own, glob = els[:nel - split_at], els[nel - split_at:]
+    elif mode == 2:
+        own, glob = els, []
+    else:
+        glob, own = els[:split_at], els[split_at:]
+    hb = {"stages": rng.choice([0, 1]), "xkind": 0, "msg": gen_emits(rng, ids, 0.2)}
+    peer_own = [{"act": PASS, "k": 0, "start": [], "in": [], "end": []}] if rng.random() < 0.5 else []
+    return encode({"budget": total + rng.randint(0, 6), "global": glob,
+                   "mods": [{"mode": mode, "own": own, "h": h}, {"mode": 2, "own": peer_own, "h": hb}], "inj": inj})
+
+
 def gen(rng, n):
     for _ in range(n):
-        yield gen_script(rng)
+        yield gen_burst(rng) if rng.random() < 0.12 else gen_script(rng)
 
 
 def exhaustive():
@@ -324,6 +382,12 @@ def mechanisms(script, out):
                 ms.add("inline_peer_send")
             if any(h == H_SEND and dl > 0 for h, dl, _ in br["emits"]):
                 ms.add("delayed_peer_send")
+            if len(br["emits"]) > 20:
+                ms.add("burst_over_20")
+                keys = [((1 - br["m"]) if h == H_SEND else br["m"], dl) for h, dl, _ in br["emits"]]
+                dls = [dl for _, dl in keys]
+                if dls != sorted(dls) and len(set(keys)) < len(keys):
+                    ms.add("burst_over_20_with_ties")
         if br["t"] is not None:
             times.setdefault(br["t"], set()).add(br["m"])
     for j in range(len(es) - 1):
